@@ -1,7 +1,7 @@
 (* C02 - an elided amount is inferred as the exact negation of the rest.
    Property theorems only; proofs in Proofs/XactProofs.v.  See Properties_C01.v for the names. *)
 From LedgerV Require Import Base.Prelude Base.Round Model.Amount Model.Xact
-  Proofs.AmountProofs Proofs.XactProofs Proofs.GainLossProofs.
+  Proofs.AmountProofs Proofs.XactProofs Proofs.GainLossProofs Gen.SourceGuards.
 Local Open Scope Q_scope.
 
 (* a transaction with exactly one elided amount (index i found by the scan) is completed by
@@ -89,3 +89,10 @@ Theorem only_virtual_postings_leave_the_balance_alone : forall ord cp ps bal ps'
   exchange_posts ord cp ps bal = Ok (ps', bal') -> bal' = bal.
 Proof. exact exchange_posts_nonbalancing_only. Qed.
 Print Assumptions only_virtual_postings_leave_the_balance_alone.
+
+(* the tie to the source by translation: the lines of /repo/src this model transcribes (harness/translators/src_guards.py
+   lists them, with the function each is looked for in) are still there, in the same order, in the source as it is NOW -
+   coq/Gen/SourceGuards.v is regenerated on every run and names the guards that are false *)
+Theorem model_transcribes_current_source : forallb (fun b => b) src_guards_C02 = true.
+Proof. vm_compute. reflexivity. Qed.
+Print Assumptions model_transcribes_current_source.
